@@ -92,6 +92,50 @@ def load_known():
         return json.load(f)
 
 
+CANARY_SEED = 771177
+CANARY_SHARDS = 16
+
+
+def canary_key(v):
+    c = v.get("original_case") or v["case"]
+    return "|".join([v["kind"], c.get("pattern", ""), c.get("flags", ""), c.get("dialect", ""), c.get("replacement", "") or "", c.get("aux", "") or ""])
+
+
+def load_canaries():
+    path = os.path.join(VERIF, "known_canaries.json")
+    if not os.path.exists(path):
+        return {}
+    with open(path) as f:
+        data = json.load(f)
+    return {p: {e["key"]: e["finding"] for e in lst} for p, lst in data.get("properties", {}).items()}
+
+
+def record(prop, known, can_reports, can_incidents):
+    """(Manual step, never run by a check.) Rewrite the list of fixed-seed cases that fail on the
+    current tree for one property. Only failures that fall under an open finding's signature are
+    recorded; anything else is printed and left out, so it keeps raising an alarm."""
+    path = os.path.join(VERIF, "known_canaries.json")
+    data = {"comment": "Failures of the fixed-seed ('canary') workload of each check on the tree the open findings of known_findings.json were recorded on; identified by exact (kind, pattern, flags, dialect, replacement, aux). Read-only at run time; rewritten only by 'check.py <Cxx> --record-canaries'.", "canary_seed": CANARY_SEED, "logical_shards": CANARY_SHARDS, "properties": {}}
+    if os.path.exists(path):
+        with open(path) as f:
+            data = json.load(f)
+    entries = {}
+    bad = 0
+    for r in can_reports.values():
+        for v in r["violations"]:
+            hit = next((f for f in known["findings"] if matches_signature(v, f, prop)), None)
+            if hit:
+                entries[canary_key(v)] = {"key": canary_key(v), "finding": hit["id"], "kind": v["kind"], "pattern": (v.get("original_case") or v["case"]).get("pattern"), "minimised": v["case"].get("pattern")}
+            else:
+                bad += 1
+                log("NOT RECORDED (no open finding matches): %s %s" % (v["kind"], describe_case(v["case"])))
+    data["properties"][prop] = sorted(entries.values(), key=lambda e: e["key"])
+    with open(path, "w") as f:
+        json.dump(data, f, indent=0, ensure_ascii=True)
+    log("recorded %d canary failures for %s (%d not recorded)" % (len(entries), prop, bad))
+    return 0 if bad == 0 else 1
+
+
 def matches_signature(v, finding, prop):
     """Is violation v (from the worker) attributable to the open finding?"""
     if finding.get("status") != "open":
@@ -172,14 +216,15 @@ def solo_replay(prop, case, fuel=None, cpu_limit=60):
     return "inconclusive", p.stdout.strip()[-500:]
 
 
-def run_shards(prop, tier, seed, outdir, extra_args, wall_cap):
+def run_shards(prop, tier, seed, outdir, extra_args, wall_cap, nshards=None):
     """Run one worker per shard under the watchdogs. Returns (reports, incidents)."""
     fuel = cfg(prop, "fuel")
     cap = cfg(prop, "quick_cap" if tier == "quick" else "thorough_cap")
+    nshards = nshards or NPROC
     procs = {}
-    excluded = {i: [] for i in range(NPROC)}
+    excluded = {i: [] for i in range(nshards)}
     incidents = []
-    restarts = {i: 0 for i in range(NPROC)}
+    restarts = {i: 0 for i in range(nshards)}
 
     def spawn(i):
         out = os.path.join(outdir, "shard%d.json" % i)
@@ -188,7 +233,7 @@ def run_shards(prop, tier, seed, outdir, extra_args, wall_cap):
                 os.unlink(out + suffix)
             except FileNotFoundError:
                 pass
-        cmd = [RXV, "run", "--prop", prop, "--tier", tier, "--seed", str(seed), "--shard", str(i), "--nshards", str(NPROC), "--out", out, "--time-cap", str(cap)] + extra_args
+        cmd = [RXV, "run", "--prop", prop, "--tier", tier, "--seed", str(seed), "--shard", str(i), "--nshards", str(nshards), "--out", out, "--time-cap", str(cap)] + extra_args
         if fuel:
             cmd += ["--fuel", str(fuel)]
         if excluded[i]:
@@ -197,7 +242,7 @@ def run_shards(prop, tier, seed, outdir, extra_args, wall_cap):
         p = subprocess.Popen(cmd, stdout=subprocess.DEVNULL, stderr=errf, env=dict(ENV, RXV_REPO=REPO))
         procs[i] = {"p": p, "out": out, "last_seq": None, "stuck_cpu": 0.0, "last_cpu": 0.0, "t0": time.time()}
 
-    for i in range(NPROC):
+    for i in range(nshards):
         spawn(i)
     CPU_BUDGET = 25.0
     t_start = time.time()
@@ -258,9 +303,10 @@ def run_shards(prop, tier, seed, outdir, extra_args, wall_cap):
     return reports, incidents
 
 
-def union_hashes(outdir, n):
+def union_hashes(outdirs, n):
     seen = set()
-    for i in range(n):
+    for outdir in outdirs:
+      for i in range(n):
         p = os.path.join(outdir, "shard%d.json.hashes" % i)
         if os.path.exists(p):
             a = array.array("Q")
@@ -290,7 +336,7 @@ def describe_case(c):
     return s
 
 
-def check(prop, tier, seed):
+def check(prop, tier, seed, record_canaries=False):
     t0 = time.time()
     if not build():
         return 2
@@ -317,7 +363,23 @@ def check(prop, tier, seed):
     with open(corpus_path, "w") as f:
         json.dump(corpus, f)
     cap = cfg(prop, "quick_cap" if tier == "quick" else "thorough_cap")
-    reports, incidents = run_shards(prop, tier, seed, outdir, ["--corpus", corpus_path], wall_cap=cap * 10 + 120)
+    # phase 1, "canary": the workload at a fixed seed and a fixed number of logical shards, so that
+    # the very same cases are executed on every run and every machine; failures in it are attributed
+    # by exact identity against known_canaries.json. phase 2, "seeded": the workload at VERIF_SEED;
+    # failures in it are attributed through the structural signatures of known_findings.json.
+    can_dir = os.path.join(outdir, "canary")
+    os.makedirs(can_dir, exist_ok=True)
+    can_reports, can_incidents = run_shards(prop, "quick", CANARY_SEED, can_dir, ["--corpus", corpus_path], wall_cap=cap * 10 + 120, nshards=CANARY_SHARDS)
+    if record_canaries:
+        return record(prop, known, can_reports, can_incidents)
+    reports, incidents = run_shards(prop, tier, seed, outdir, [], wall_cap=cap * 10 + 120)
+    incidents = can_incidents + incidents
+    n_seeded_shards = len(reports)
+    canary_violation_ids = set()
+    for i, r in can_reports.items():
+        for v in r["violations"]:
+            canary_violation_ids.add(id(v))
+        reports["canary%d" % i] = r
 
     # ---- merge ----
     evaluations = sum(r["evaluations"] for r in reports.values())
@@ -329,7 +391,7 @@ def check(prop, tier, seed):
     violations = []
     notes = []
     strata = {}
-    for i in sorted(reports):
+    for i in sorted(reports, key=str):
         r = reports[i]
         for k, v in r["inconclusive"].items():
             inconclusive[k] = inconclusive.get(k, 0) + v
@@ -353,7 +415,7 @@ def check(prop, tier, seed):
                 strata[k.replace("_this_shard", "_all_shards")] = strata.get(k.replace("_this_shard", "_all_shards"), 0) + v
             else:
                 strata[k] = v
-    distinct = union_hashes(outdir, NPROC)
+    distinct = union_hashes([outdir, can_dir], max(NPROC, CANARY_SHARDS))
     max_steps = max([r.get("max_engine_steps_per_call", 0) for r in reports.values()] + [0])
     engine_calls = sum(r.get("engine_calls", 0) for r in reports.values())
     truncated = any(r.get("truncated") for r in reports.values())
@@ -379,16 +441,27 @@ def check(prop, tier, seed):
     known_hits = {}
     unknown = []
     seen_min = set()
+    canary_known = load_canaries().get(prop, {})
+    canary_listed_seen = 0
     for v in violations:
         key = (v["kind"], json.dumps(v["case"], sort_keys=True))
         if key in seen_min:
             continue
         seen_min.add(key)
         hit = None
-        for f in known["findings"]:
-            if matches_signature(v, f, prop):
-                hit = f
-                break
+        if id(v) in canary_violation_ids:
+            # exact identity: this very (kind, pattern, flags, ...) must be listed
+            fid = canary_known.get(canary_key(v))
+            if fid:
+                hit = next((f for f in known["findings"] if f["id"] == fid and f.get("status") == "open"), None)
+                canary_listed_seen += 1
+            else:
+                v = dict(v, canary=True)
+        else:
+            for f in known["findings"]:
+                if matches_signature(v, f, prop):
+                    hit = f
+                    break
         if hit:
             known_hits.setdefault(hit["id"], {"finding": hit, "count": 0, "example": v})
             known_hits[hit["id"]]["count"] += 1
@@ -406,14 +479,14 @@ def check(prop, tier, seed):
             json.dump(v, f, indent=1)
         replay_paths.append(path)
         log("VIOLATION property=%s replay=%s" % (prop, path))
-        log("  kind=%s %s observed=%s expected=%s" % (v["kind"], describe_case(v["case"]), json.dumps(v["observed"])[:300], json.dumps(v["expected"])[:300]))
+        log("  %skind=%s %s observed=%s expected=%s" % ("[fixed-seed canary case, not in known_canaries.json] " if v.get("canary") else "", v["kind"], describe_case(v["case"]), json.dumps(v["observed"])[:300], json.dumps(v["expected"])[:300]))
     if len(unknown) > 10:
         log("  (+%d further distinct unattributed witnesses not listed)" % (len(unknown) - 10))
 
     # ---- sufficiency of what was observed ----
     problems = []
-    if len(reports) < NPROC:
-        problems.append("only %d of %d shards completed" % (len(reports), NPROC))
+    if n_seeded_shards < NPROC or len(can_reports) < CANARY_SHARDS:
+        problems.append("only %d of %d seeded and %d of %d canary shards completed" % (n_seeded_shards, NPROC, len(can_reports), CANARY_SHARDS))
     if held < cfg(prop, "min_held"):
         problems.append("held on only %d cases (floor %d)" % (held, cfg(prop, "min_held")))
     if distinct < cfg(prop, "min_distinct"):
@@ -437,6 +510,7 @@ def check(prop, tier, seed):
         "shards": len(reports),
         "truncated_by_time_cap": truncated,
         "known_findings_seen": {k: h["count"] for k, h in known_hits.items()},
+        "canary_phase": {"seed": CANARY_SEED, "logical_shards": CANARY_SHARDS, "cases": sum(r["evaluations"] for r in can_reports.values()), "listed_known_failures": len(canary_known), "listed_known_failures_seen_again": canary_listed_seen, "attribution": "exact identity (kind, pattern, flags, dialect, replacement, aux)"},
         "unattributed_violations": len(unknown),
         "incidents": [{k: inc.get(k) for k in ("first", "solo", "detail")} for inc in incidents][:10],
         "oracle_selftest": {k: st.get(k) for k in ("repo_expectations_checked", "repo_expectations_found", "roundtrip_cases")},
@@ -503,7 +577,7 @@ def main():
     seed = int(os.environ.get("VERIF_SEED", "0") or 0)
     if "--seed" in args:
         seed = int(args[args.index("--seed") + 1])
-    return check(prop, tier, seed)
+    return check(prop, tier, seed, record_canaries="--record-canaries" in args)
 
 
 if __name__ == "__main__":
